@@ -29,7 +29,7 @@ def encode_vars(variables, ns):
     return '\x1e'.join(recs)
 
 
-def call_xpath(drv, doc, expr, ctx='/', ctxlist=None, ns=None, variables=None, entry='generic', strprefix=None):
+def call_xpath(drv, doc, expr, ctx='/', ctxlist=None, ns=None, variables=None, entry='generic', strprefix=None, strip=0):
     ns = ns or {}
     fields = dict(cmd='xpath', doc=doc, expr=expr, ctx=ctx, entry=entry,
                   ns='\n'.join('%s=%s' % kv for kv in ns.items()), vars=encode_vars(variables or {}, ns))
@@ -37,6 +37,8 @@ def call_xpath(drv, doc, expr, ctx='/', ctxlist=None, ns=None, variables=None, e
         fields['ctxlist'] = ';'.join(ctxlist)
     if strprefix:
         fields['strprefix'] = strprefix
+    if strip:
+        fields['strip'] = str(strip)
     rep = drv.call(**fields)
     out = {}
     for k, v in rep.items():
